@@ -172,6 +172,8 @@ func (s *listSubj[T]) ModelApply(op Op) {
 		slices.SortStableFunc(s.m, s.d.Cmp)
 	case "Clear":
 		s.m = nil
+	case "Fill":
+		s.m = append(slices.Clone(s.m), s.vals(fillIdx(a))...)
 	case "New":
 		s.m = s.vals(a)
 	default:
@@ -229,6 +231,8 @@ func (s *listSubj[T]) Step(op Op, o *Oracle) {
 		}
 	case "Clear":
 		s.l.Clear()
+	case "Fill":
+		s.l.Add(s.vals(fillIdx(a))...)
 	case "New":
 		vs := s.vals(a)
 		s.l = makeList[T](s.cfg.Kind, vs...)
